@@ -39,6 +39,7 @@ fn is_path_char(c: char) -> bool {
         || c == '-'
         || c == '_'
         || c == '.'
+        || c == '~'
         || c == '+'
         || c == '!'
         || c == '*'
